@@ -29,7 +29,7 @@ PROPS = {
     },
     'C06': {
         'props': 'Props/C06.v',
-        'suites': [{'name': 'cdecode', 'oracles': {'cdecode': 'o_reqs'}, 'trivial_tags': ['out-wait'], 'vm_sample': 40}],
+        'suites': [{'name': 'cdecode', 'oracles': {'cdecode': 'o_reqs'}, 'trivial_tags': ['out-wait'], 'vm_sample': 40}, {'name': 'loop', 'oracles': {'loop': 'o_loop'}, 'trivial_tags': ['plain'], 'vm_sample': 6, 'sigs': ['request-delivered-to-a-node-that-does-not-own-the-slot', 'backend-received-bytes-that-are-not-requests', 'reply-does-not-belong-to-the-request-at-its-position', 'event-loop-stopped']}],
         'rule': 'client decoder on generated requests (every command x letter case x argument counts; MGET/DEL/MSET with forced slot '
                 'collisions via shared hash tags, duplicates, empty and binary keys/values, lengths straddling digit-count boundaries; '
                 'pipelined, truncated and mutated variants); distinct = distinct (limit, bytes); non-trivial = not a plain wait outcome',
@@ -65,7 +65,7 @@ PROPS = {
     },
     'C17': {
         'props': 'Props/C17.v',
-        'suites': [{'name': 'cdecode', 'oracles': {'cdecode': 'o_reqs'}, 'trivial_tags': ['out-wait'], 'vm_sample': 40}],
+        'suites': [{'name': 'cdecode', 'oracles': {'cdecode': 'o_reqs'}, 'trivial_tags': ['out-wait'], 'vm_sample': 40}, {'name': 'loop', 'oracles': {'loop': 'o_loop'}, 'trivial_tags': ['plain'], 'vm_sample': 6, 'sigs': ['backend-received-bytes-that-are-not-requests', 'reply-does-not-belong-to-the-request-at-its-position', 'more-replies-than-requests', 'event-loop-stopped']}],
         'rule': 'as C06; includes all 104 table names x 3 letter cases x 9 argument counts, 22 unsupported/near-miss names, and limits set to '
                 'the request size -2..+2, alone and inside a pipeline',
         'explanation': 'Data theorems re-proved against the tables translated from commands.go and docs/command.md on this run (supported set = documented '
@@ -75,7 +75,7 @@ PROPS = {
     },
     'C07': {
         'props': 'Props/C07.v',
-        'suites': [{'name': 'merge', 'oracles': {'merge': 'o_merge'}, 'trivial_tags': ['frags-1'], 'vm_sample': 25}, {'name': 'sdecode', 'trivial_tags': ['out-wait'], 'vm_sample': 40}],
+        'suites': [{'name': 'merge', 'oracles': {'merge': 'o_merge'}, 'trivial_tags': ['frags-1'], 'vm_sample': 25}, {'name': 'sdecode', 'trivial_tags': ['out-wait'], 'vm_sample': 40}, {'name': 'loop', 'oracles': {'loop': 'o_loop'}, 'trivial_tags': ['plain'], 'vm_sample': 6, 'sigs': ['reply-does-not-belong-to-the-request-at-its-position', 'more-replies-than-requests', 'stray-bytes-after-the-last-reply', 'request-never-answered-and-connection-left-open', 'event-loop-stopped']}],
         'rule': 'merge: one client request (MGET/DEL/MSET with shared hash tags, duplicates, empty/binary keys; some single-key) through the production '
                 'event loop on socketpairs with 4 backend nodes x up to 16 connections; the harness parses every fragment with a strict parser, answers '
                 'from a random store (absent keys, empty values, values with CR/LF) and releases the answers in EVERY order (<= 3 fragments quick, <= 4 '
@@ -88,7 +88,7 @@ PROPS = {
     },
     'C11': {
         'props': 'Props/C11.v',
-        'suites': [{'name': 'merge', 'oracles': {'merge': 'o_merge'}, 'trivial_tags': ['frags-1'], 'vm_sample': 25}, {'name': 'sdecode', 'trivial_tags': ['out-wait'], 'vm_sample': 40}],
+        'suites': [{'name': 'merge', 'oracles': {'merge': 'o_merge'}, 'trivial_tags': ['frags-1'], 'vm_sample': 25}, {'name': 'sdecode', 'trivial_tags': ['out-wait'], 'vm_sample': 40}, {'name': 'loop', 'oracles': {'loop': 'o_loop'}, 'trivial_tags': ['plain'], 'vm_sample': 6, 'sigs': ['reply-does-not-belong-to-the-request-at-its-position', 'more-replies-than-requests', 'redirect-error-leaked-to-client', 'request-never-answered-and-connection-left-open', 'event-loop-stopped']}],
         'rule': 'as C07; error replies drawn from ERR, WRONGTYPE, LOADING, CLUSTERDOWN, TRYAGAIN, CROSSSLOT, READONLY, MASTERDOWN, NOSCRIPT, BUSY, MISCONF, OOM and degenerate "-ERR", "-E" on any subset of fragments',
         'explanation': 'Theorems: an error (any non-array for MGET, any non-integer for DEL, any non-OK for MSET) on any fragment completes the request with an error reply, exactly once, '
                        'later replies are discarded; single-key errors are handed on verbatim; no step is Crash/Hang. Two genuine defects found and repaired (DEL summed -1; MGET panicked).',
@@ -165,7 +165,7 @@ PROPS = {
     },
     'C09': {
         'props': 'Props/C09.v',
-        'suites': [{'name': 'loop', 'oracles': {'loop': 'o_loop'}, 'trivial_tags': ['plain'], 'vm_sample': 12, 'sigs': ['completed-reply-withheld-at-head-of-queue', 'event-loop-stopped']}],
+        'suites': [{'name': 'loop', 'oracles': {'loop': 'o_loop'}, 'trivial_tags': ['plain'], 'vm_sample': 12, 'sigs': ['completed-reply-withheld-at-head-of-queue', 'backend-reply-received-but-not-processed', 'event-loop-stopped']}],
         'rule': LOOP_RULE,
         'explanation': 'Theorem C09_no_completed_head: for every history and every open client, at the end of each event the head of the queue is not a completed request - a deliverable reply is written in the event that completed it. One genuine defect repaired (flush gated on the whole queue being done). The wall-clock bound (epoll latency) is runtime behaviour outside the model; the stepper snapshot exposes the done flag of every queue head after each event.',
         'assumptions': ['as C01'],
@@ -202,7 +202,7 @@ PROPS = {
     },
     'C13': {
         'props': 'Props/C13.v',
-        'suites': [{'name': 'loop', 'oracles': {'loop': 'o_loop'}, 'trivial_tags': ['plain'], 'vm_sample': 12, 'sigs': ['ask-redirect-without-asking', 'redirect-error-leaked-to-client', 'event-loop-stopped']}],
+        'suites': [{'name': 'loop', 'oracles': {'loop': 'o_loop'}, 'trivial_tags': ['plain'], 'vm_sample': 12, 'sigs': ['ask-redirect-without-asking', 'redirect-error-leaked-to-client', 'backend-reply-received-but-not-processed', 'request-never-answered-and-connection-left-open', 'event-loop-stopped']}],
         'rule': LOOP_RULE,
         'explanation': "Theorems: a MOVED/ASK reply for an open fragment naming a reachable node re-queues the fragment at the tail of that node's connection without touching any client or request (C13_redirect_requeues); for ASK the ownerless ASKING command is queued immediately before it and the write round sends ASKING then the request (C13_redirect_queue, C13_asking_then_request; witness C13_ask_witness: the +OK of ASKING reaches no client); ordering/exactly-once by C01's theorem; every step is a total function. Two genuine defects repaired: the request re-sent after -ASK was not preceded by ASKING (first proved as C13_ask_refuted and kept as a known finding, then repaired in ae04d4f: model, theorems and oracle now state the positive property); late redirects for completed requests used to panic.",
         'assumptions': ["redirect chains are finite when the cluster's redirects are consistent (no hop bound exists: A->B->A loops forever) - assumption consistent_redirects", 'as C01'],
@@ -215,6 +215,12 @@ PROPS = {
         'assumptions': ['real time: the model has the scan as an event in which all in-flight fragments have expired; equal deadlines (LLRB replace-on-equal) and the fact that Polling runs the scan only after an epoll round with events are outside the model', 'as C01'],
     },
 }
+
+# the checks of the codec properties also run the event-loop histories: what the codecs decide reaches
+# clients and nodes only through the loop (a crash, a reply in the wrong position or a fragment on the
+# wrong node shows there)
+for _pid in ('C06', 'C07', 'C11', 'C17'):
+    PROPS[_pid]['rule'] += ' | loop suite: ' + LOOP_RULE
 
 NOT_YET = {}
 
